@@ -86,6 +86,13 @@ def generate(rng, tier):
         {"op": "put", "on": "Q", "v": 2}, {"op": "put", "on": "Q", "v": 3},
         {"op": "put", "on": "Q", "v": 4}]})
     rng.shuffle(siblings)
+    watched = [spec["name"] for spec in siblings if spec["name"].startswith("s")]
+    if watched and rng.random() < 0.15:
+        # a watcher task whose payload is a sibling *task* (`scope.do(task)`): cancelling the
+        # watcher is cancelling a child like any other - the watched sibling carries on
+        target_name = rng.choice(watched)
+        index = next(i for i, spec in enumerate(siblings) if spec["name"] == target_name)
+        siblings.insert(index + 1, {"name": "wr", "wraps": target_name, "ops": []})
     host_body = []
     if rng.random() < 0.4:
         host_body.append({"op": "sleep", "d": rng.choice(DELAYS)})
@@ -147,6 +154,13 @@ def explore(case, base, rng, tier, one):
         variant["plan"] = [{"tick": tick, "kind": "cancel", "victim": "t", "token": ["c1", tick]}]
         if one(variant).violations:
             return
+    if any(a.get("name") == "wr" for a in _walk_actors(case["scenario"])):
+        for tick in (ticks if len(ticks) <= cap // 2 else sorted(rng.sample(ticks, cap // 2))):
+            variant = dict(case)
+            variant["plan"] = [{"tick": tick, "kind": "cancel", "victim": "wr",
+                                "token": ["cw", tick]}]
+            if one(variant).violations:
+                return
     for _ in range(min(cap // 3, len(ticks))):
         first = rng.choice(ticks)
         second = min(n_ticks, first + rng.choice([0, 1, 1, 2, 3, 5, 9]))
@@ -156,6 +170,17 @@ def explore(case, base, rng, tier, one):
             {"tick": second, "kind": "cancel", "victim": "t", "token": ["c2", second]}]
         if one(variant).violations:
             return
+
+
+def _walk_actors(node):
+    if isinstance(node, dict):
+        if "name" in node and "ops" in node:
+            yield node
+        for value in node.values():
+            yield from _walk_actors(value)
+    elif isinstance(node, list):
+        for item in node:
+            yield from _walk_actors(item)
 
 
 class StatusMonitor:
@@ -338,7 +363,8 @@ def check(rec, twin=None):
     if status_seq and final is not None and status_seq[-1] != final and ORDER[status_seq[-1]] == 2:
         bad("status-changed-after-done", "t was %s, is %s at the end" % (status_seq[-1], final))
     # twin comparison: a cancelled child never disturbs parent and siblings
-    if twin is not None and cancels:
+    wr_cancels = [f for f in rec.fault_log if f["kind"] == "cancel" and f["victim"] == "wr"]
+    if twin is not None and (cancels or wr_cancels):
         mine = _by_actor(rec, skip=("t",))
         theirs = _by_actor(twin, skip=("t",))
         failed = t_exc is not None and t_exc[5][0].startswith("Prog")
